@@ -152,6 +152,12 @@ def finish(prop, outcome, timer, level, coverage, assumptions, extra=None):
 def run_parser_groups(prop, tag, mods, spec_list, outcome, jobs=12, harness_timeout_s=600, mem_gb=16):
     """Kani run over the llguidance crate overlay for the given harness modules. Adds to `outcome`; returns summary dict."""
     from . import parser_props as pp
+    import os
+    only = [x for x in os.environ.get("VERIF_ONLY", "").split(",") if x]
+    if only:
+        # development / seeded-change evaluation: restrict the run to the named harnesses (the registered commands never set this)
+        spec_list = [s for s in spec_list if any(o in s["name"] for o in only)]
+        log("VERIF_ONLY: %d harnesses selected" % len(spec_list))
     try:
         ov = pp.prepare(tag, mods)
     except (pp.SliceError, FileNotFoundError) as ex:
